@@ -32,7 +32,7 @@ func (m *machine) drawPricing(t *rapid.T) *PricingSpec {
 		p.Price = gen.Amount(t, "price", 40).String()
 	}
 	if swMultiDenom && uni(t, "price/denom", 4) == 0 {
-		p.Denom = pickFrom(t, "price/denomname", []string{"btc", "eth"})
+		p.Denom = pickFrom(t, "price/denomname", []string{"btc", "eth", "usdt"})
 	}
 	if swAvoidF2 {
 		return p
@@ -416,9 +416,9 @@ func (m *machine) Next(t *rapid.T) Op {
 		return Op{Kind: "params", Params: m.drawParams(t)}
 	case "rate":
 		if swRateOutage && uni(t, "rate/outage", 3) == 0 {
-			return Op{Kind: "rate", Denom: pickFrom(t, "rate/denom", []string{"btc", "eth"})}
+			return Op{Kind: "rate", Denom: pickFrom(t, "rate/denom", []string{"btc", "eth", "usdt"})}
 		}
-		return Op{Kind: "rate", Denom: pickFrom(t, "rate/denom", []string{"btc", "eth"}),
+		return Op{Kind: "rate", Denom: pickFrom(t, "rate/denom", []string{"btc", "eth", "usdt"}),
 			Rate: pickFrom(t, "rate/value", []string{"2", "0.5", "1", "0.001", "1000", "1.5", "0.333333"})}
 	default:
 		n := pickFrom(t, "block/n", []int{1, 1, 1, 2, 2, 3, 4, 6})
